@@ -8,7 +8,7 @@
   drained, into the per-operation contract of the layer; replaying that stream reproduces the tree.
 -/
 import WD.Proofs.Decoders
-import WD.Proofs.Mac.Cut
+import WD.Proofs.Mac.Sticky
 namespace WD.C20
 open WD.Dec
 
@@ -88,6 +88,15 @@ theorem mac_replay (fs : FS) (hwf : fs.WF) (ops : List Op) (hv : Win.winFsValid 
   rw [mac_contract_refined fs hwf true ops hv]
   exact Mac.mac_replay_run hwf ops hv hroot
 
+/-- FSEvents, flags sticking to an item (recursive watch): whatever created / modified / inode-meta flags re-appear
+    on the native events of each operation of a valid history (one arbitrary choice per event: `stickyLens`), the
+    delivered stream still replays to the final tree — a spurious created flag is either suppressed by the set of
+    inodes already announced or harmless (the item exists, or its removal / move follows in the same event) -/
+theorem mac_sticky_replay (fs : FS) (hwf : fs.WF) (oss : List (Op × List Mac.Sticky))
+    (hv : Win.winFsValid fs (oss.map Prod.fst) = true) (hroot : Op.rmdir ["W"] ∉ oss.map Prod.fst) (hl : Mac.stickyLens fs oss) :
+    sameTree (replay (treeW fs) ((Mac.MSys.mk fs {} true).runSticky oss).2.flatten) (treeW (fsRun fs (oss.map Prod.fst))) :=
+  Mac.sticky_run ⟨fs, {}, true⟩ rfl oss hwf rfl (fun _ h => by cases h) hv hroot hl
+
 /-- FSEvents, a callback boundary between the two native events of a rename inside the tree: the emitter falls back
     to a deleted event, a created event and synthetic created events (`Mac.cutStream`: exactly what the two
     callbacks deliver, `Mac.cut_rename_emits`), and that stream still replays to the tree after the rename -/
@@ -116,5 +125,12 @@ example : ((Win.WSys.mk (fsRun FS.init [.mkdir ["W", "d"], .create ["W", "d", "x
 example : ((Mac.MSys.mk (fsRun FS.init [.mkdir ["W", "d"], .create ["W", "d", "x"]]) {} true).op (.rename ["W", "d"] ["W", "e"])).2 =
     [mkEv .DirMovedEvent ["W", "d"] ["W", "e"], dirMod ["W", "d"], dirMod ["W", "e"],
      mkEv .FileMovedEvent ["W", "d", "x"] ["W", "e", "x"] true] := by decide +kernel
+
+/-- non-vacuity of the sticky theorem: created, then removed with the created flag still attached (announced: only the
+    deletion goes out) -/
+example : ((Mac.MSys.mk FS.init {} true).runSticky
+    [(.create ["W", "a"], [{}]), (.unlink ["W", "a"], [{ created := true, modified := true }])]).2 =
+    [[mkEv .FileCreatedEvent ["W", "a"], dirMod ["W", "a"]],
+     [mkEv .FileModifiedEvent ["W", "a"], mkEv .FileDeletedEvent ["W", "a"], dirMod ["W", "a"]]] := by decide +kernel
 
 end WD.C20
